@@ -27,7 +27,7 @@ RULE = ("proof part: protocol theorems + obligations on the instruction paths re
 def workloads(rnd, tier):
     rows = [{"a": i % 4, "s": rnd.choice(["x", "y", "z"]), "k": i, "items": [{"x": j} for j in range(i % 3)]} for i in range(8)]
     other = [{"m": i % 3, "b": rnd.choice(["p", "q"])} for i in range(6)]
-    doc = {"t": rows, "u": other, "meta": [{"v": 1}, {"v": 2}]}
+    doc = {"t": rows, "u": other, "meta": [{"v": 1}, {"v": 2}], "w": [{"k": i, "a": i % 5, "s": "x"} for i in range(44)]}
     queries = [
         "SELECT a, s FROM t WHERE a >= 1 ORDER BY k DESC",
         "SELECT * FROM t x JOIN u y ON x.a = y.m",
@@ -61,12 +61,18 @@ def workloads(rnd, tier):
         "SELECT k, HASH(s,'sha256') AS h, HASH(k,'md5') AS hk FROM t",
         "SELECT k, ASYNC.HASH(s,'sha256') AS h, ENCODE(s,'base64') AS e FROM t",
     ]
+    # PARALLEL joins over more distinct keys than there are processors, healthy and with an ON that fails on every pair / on
+    # the pairs of some keys: the tasks must all be collected (rows or the error), however they are spread over workers
+    wide = ["SELECT * FROM w x PARALLEL JOIN w y ON x.k < y.k AND x.a = y.a",
+            "SELECT * FROM w x PARALLEL HASH_JOIN w y ON x.k = y.k",
+            "SELECT * FROM w x PARALLEL JOIN w y ON x.k >= y.k AND x.s",
+            "SELECT * FROM w x PARALLEL LEFT JOIN w y ON x.k = y.k AND x.s + 1 > 0"]
     selectors = ["t[%d:0].a" if False else "t.a", "t[each].items", "u[(0:2)].m", "k%d", "t{k%d|string}" if False else "meta.v",
                  "'k%d'.x", "t[0].k%d"]
     g = 4 if tier == "quick" else 16
     out = []
     # shared document: every query reads the same Go object
-    out.append({"docs": [enc_val(doc)], "queries": [{"doc": 0, "sql": q} for q in queries], "selectors": selectors,
+    out.append({"docs": [enc_val(doc)], "queries": [{"doc": 0, "sql": q} for q in queries + wide], "selectors": selectors,
                 "goroutines": g, "repeat": 6 if tier == "quick" else 30})
     # separate documents: only the process-wide cache and registries are shared
     out.append({"docs": [enc_val(doc) for _ in range(4)],
@@ -97,19 +103,22 @@ def alone_expectations(runner, w):
         req = {"id": 0, "op": "alone", "args": {"doc": w["docs"][q["doc"]], "q": q}}
         try:
             p = subprocess.run([runner], input=(json.dumps(req) + "\n").encode(), stdout=subprocess.PIPE, stderr=subprocess.PIPE,
-                               env=dict(os.environ, GORACE="halt_on_error=0 exitcode=66", GOMEMLIMIT="2GiB"), timeout=120)
+                               env=dict(os.environ, GORACE="halt_on_error=0 exitcode=66", GOMEMLIMIT="2GiB"), timeout=90)
             o = [json.loads(l) for l in p.stdout.decode().splitlines() if l.strip()]
             if o and o[0].get("r") == "ok":
                 return o[0]["v"], o[0]["rr"]
+        except subprocess.TimeoutExpired:
+            return "timeout"
         except Exception:
             pass
         return None
     with ThreadPoolExecutor(8) as ex:
         res = list(ex.map(one, w["queries"]))
+    hung = [q["sql"] for q, r in zip(w["queries"], res) if r == "timeout"]
     for q, r in zip(w["queries"], res):
-        if r is not None:
+        if r is not None and r != "timeout":
             q["expectV"], q["expectR"] = r
-    return sum(1 for r in res if r is not None)
+    return sum(1 for r in res if r is not None and r != "timeout"), hung
 
 
 def explore(chk, rnd, tier):
@@ -123,7 +132,12 @@ def explore(chk, rnd, tier):
     for gmp in ([None] if tier == "quick" else [None, "2", "8"]):
         for w in workloads(rnd, tier):
             if gmp is None or "expectV" not in w["queries"][0]:
-                chk.count("stand-alone-processes", alone_expectations(runner, w))
+                n_alone, hung = alone_expectations(runner, w)
+                chk.count("stand-alone-processes", n_alone)
+                if hung:
+                    chk.add_violation("deadlock-or-hang", {"detail": "a process running this one query alone did not return within 90 s",
+                                                           "sql": hung[0], "doc": w["docs"][0], "all_hung": hung})
+                    return
             env = dict(os.environ, GORACE="halt_on_error=0 exitcode=66", GOMEMLIMIT="4GiB")
             if gmp:
                 env["GOMAXPROCS"] = gmp
